@@ -167,8 +167,11 @@ Bracket OneDimensionOptimizationTools::inwardBracketMinimum(
       bestMiddleF = fcurr;
     }
   }
-  bracket.c.x = bestMiddleX;
-  parameters[0].setValue(bracket.c.x); bracket.c.f = function.f(parameters);
+  // As for bracketMinimum(), a and c are the ends of the interval and b is the lowest point found in between
+  // (this is what BrentOneDimension expects):
+  bracket.setC(bracket.b.x, bracket.b.f);
+  bracket.b.x = bestMiddleX;
+  parameters[0].setValue(bracket.b.x); bracket.b.f = function.f(parameters);
   return bracket;
 }
 
